@@ -786,6 +786,12 @@ func (s *Server) startIPCPNegotiation(session *Session) {
 
 // handleIPCP handles IPCP packets
 func (s *Server) handleIPCP(session *Session, data []byte) {
+	// RFC 1661 section 3.5: NCP packets received before the authentication
+	// phase has completed successfully are silently discarded.
+	if !session.Authenticated {
+		return
+	}
+
 	pkt, err := ParseLCPPacket(data)
 	if err != nil {
 		return
